@@ -207,6 +207,12 @@ func runCheck(id, tier string, seed int, replayPath, only string, verbose, noRep
 		return 2
 	}
 	loadS := time.Since(t0).Seconds()
+	lemmas, lerr := proveLemmas()
+	if lerr != nil {
+		fmt.Printf("ENGINE-LEMMA-FAILED %v\n", lerr)
+		writeEvidence(spec, tier, seed, nil, nil, time.Since(t0), "engine lemma failed: "+lerr.Error(), 0, map[string]any{"engine_lemmas": lemmas})
+		return 2
+	}
 	for _, a := range spec.Anchors {
 		if findFunc(prog, a) == nil {
 			fmt.Printf("ANCHOR-MISSING property=%s function=%s\n", id, a)
@@ -325,7 +331,7 @@ func runCheck(id, tier string, seed int, replayPath, only string, verbose, noRep
 	if exit == 2 {
 		note = "run not conclusive (incomplete / engine error): must not be read as a pass"
 	}
-	writeEvidence(spec, tier, seed, results, lines, time.Since(t0), note, replays, map[string]any{"load_s": loadS})
+	writeEvidence(spec, tier, seed, results, lines, time.Since(t0), note, replays, map[string]any{"load_s": loadS, "engine_lemmas": lemmas})
 	if exit == 0 {
 		fmt.Printf("OK property=%s tier=%s entries=%d wall=%.1fs\n", id, tier, len(results), time.Since(t0).Seconds())
 	}
@@ -427,7 +433,7 @@ func writeEvidence(spec *Spec, tier string, seed int, results []*EntryResult, li
 		}
 		boundsDesc[r.Name] = map[string]any{"bounds": r.Bounds, "describe": r.Describe, "status": r.Status, "paths": r.Paths,
 			"queries": r.Queries, "sat": r.Sat, "unsat": r.Unsat, "unknown": r.Unknown, "solver_s": r.SolverS, "wall_s": r.WallS,
-			"max_unwind_seen": r.MaxUnwind, "instructions": r.Steps, "asserts": r.Asserts, "reached": r.Reached}
+			"max_unwind_seen": r.MaxUnwind, "instructions": r.Steps, "asserts": r.Asserts, "reached": r.Reached, "cuts": r.Cuts}
 		for k := range r.Incomplete {
 			incompl = append(incompl, r.Name+": "+k)
 		}
